@@ -102,7 +102,12 @@ def op_bf_set(a):
             from .core import family
             # a refused assignment must leave every view as it was
             return {"exc": family(e), "after": views(f)}
-        return {"views": views(f)}
+        # first thing after the assignment, before any view is read: the field equals the octets of its own value
+        own = bool(f == int(f).to_bytes(len(f), "big")) if len(f) else True
+        out = {"views": views(f)}
+        if not own:
+            out["equals_own_octets"] = False
+        return out
     return outcome(run)
 
 
@@ -110,8 +115,20 @@ def op_bf_eq(a):
     from spacepackets.util import UnsignedByteField
 
     def run():
-        f1 = UnsignedByteField(int.from_bytes(bytes(a["v1"]), "big"), a["w1"])
-        f2 = UnsignedByteField(int.from_bytes(bytes(a["v2"]), "big"), a["w2"])
+        def mk(v, w, salt):
+            # the generic class, or (by a deterministic choice) the width-specific convenience class of the same field;
+            # ByteFieldEmpty(w) is the zero field of width w
+            val = int.from_bytes(bytes(v), "big")
+            import zlib
+            if zlib.crc32(repr((val, w, salt, a["w1"], a["w2"])).encode()) % 2 == 0:
+                from spacepackets import util as U
+                if val == 0:
+                    return U.ByteFieldEmpty(w)
+                if w in (1, 2, 4, 8):
+                    return _cls(w)(val)
+            return UnsignedByteField(val, w)
+        f1 = mk(a["v1"], a["w1"], 0)
+        f2 = mk(a["v2"], a["w2"], 1)
         e1, e2 = bool(f1 == f2), bool(f2 == f1)
         if e1 != e2:
             return {"eq": "asymmetric"}
